@@ -179,6 +179,43 @@ def analyse_C07(cases, rep):
         rep.sample(dict(line=c.base(), flags=xi, span=span))
     rep.notes['layout_stride_is_exhaustive_branches'] = branch
 
+def forwarders_C07(rep, seed, tier, cfg):
+    """"mdspan and mdarray report exactly their mapping's answers": the view and mdarray servers print `fw=1` when every
+    is_X / is_always_X of the wrapper equals the mapping's, and the flags printed by mdspan are compared with the model's"""
+    from . import viewfam as V, checks_c12 as A12
+    import random
+    try: exe, secs, cached = V.build(cfg)
+    except C.BuildError as e:
+        rep.broke(dict(correspondence='view op server build (%s)' % cfg, why=str(e), log=e.log[-2000:])); return
+    cases = V.gen_cases(seed, 'quick', {'C13'})
+    V.run_cases(cases, exe); n = 0
+    for c in cases:
+        if c.model == 'ub' or c.impl == 'ub': continue
+        for si, sm in zip(c.impl.split(' | '), c.model.split(' | ')):
+            if not si.startswith('h='): continue
+            n += 1; rep.cov['evaluations'] += 1
+            di = dict(x.split('=', 1) for x in si.split()); dm = dict(x.split('=', 1) for x in sm.split()) if sm.startswith('h=') else {}
+            if di.get('fw') != '1':
+                rep.violation(dict(kind='mdspan-flag-or-observer-forwarder-differs-from-its-mapping', line=c.line()[:400], impl=si, config=cfg)); break
+            if di.get('fl') != dm.get('fl'):
+                rep.broke(dict(correspondence='mdspan flags vs model', line=c.line()[:400], impl=si, model=sm, config=cfg)); break
+    rep.notes['mdspan_forwarder_observations'] = n
+    # mdarray
+    try: exe, secs, cached = A12.build(cfg)
+    except C.BuildError as e:
+        rep.broke(dict(correspondence='mdarray op server build (%s)' % cfg, why=str(e), log=e.log[-2000:])); return
+    rnd = random.Random(seed); lines = []
+    for inst in A12.G.instances():
+        kind, sp, t, pat, ck = inst
+        es = [p if p is not None else rnd.choice([0, 1, 2, 3]) for p in pat]
+        ss = F.chain_strides(rnd, es, (1, 1, 2)) if kind == 'stride' else None
+        lines.append(A12.G.line(inst) + ' ext=%s' % C.fmt(es) + (' str=%s' % C.fmt(ss) if ss is not None else '') + ' seq=cm:0/ob:0')
+    out = C.pipe(exe, lines); m = 0
+    for l, xi in zip(lines, out):
+        m += 1; rep.cov['evaluations'] += 1
+        if ' fw=1' not in xi: rep.violation(dict(kind='mdarray-flag-forwarder-differs-from-its-mapping', line=l, impl=xi, config=cfg))
+    rep.notes['mdarray_forwarder_observations'] = m
+
 ANALYSE = {'C01': analyse_C01, 'C02': analyse_C02, 'C05': analyse_C05, 'C07': analyse_C07}
 RULES = {
  'C01': 'five layouts x 8 index types x static/dynamic patterns: all extents in {0..3}^r (r<=3; thorough r<=4) with every multi-index, boundary lattice around the top of each index type, random rank<=6; admissibility decided by the Lean predicate Layout.admB; non-trivial = admissible, rank>=1, >=2 multi-indices; distinct by op-line prefix',
@@ -208,6 +245,7 @@ def check(prop, tier, seed, replay=None):
         rep.notes['op_lines_' + cfg] = n
         rep.notes['admissible_cases_' + cfg] = sum(1 for c in cases if c.adm)
         ANALYSE[prop](cases, rep)
+        if prop == 'C07' and not replay and cfg == configs[0]: forwarders_C07(rep, seed, tier, cfg)
     rep.notes['streams'] = streams
     rep.cov['exhaustive'] = True
     rep.notes['exhaustive_scope'] = 'the exhaustive-small stream enumerates every multi-index of each generated small extents tuple; the extents tuples themselves are sampled for rank 3 in the quick tier'
